@@ -107,7 +107,7 @@ func genWorld(r *vlib.Rand) *World {
 	return w
 }
 
-func genProxy(r *vlib.Rand, w *World, hashes [3]string, names []string) *Proxy {
+func genProxy(r *vlib.Rand, w *World, names []string) *Proxy {
 	p := &Proxy{Cluster: vlib.Pick(r, w.Clusters)}
 	if r.Chance(5) {
 		p.Cluster = "c9" // unknown to ForCluster
@@ -122,7 +122,6 @@ func genProxy(r *vlib.Rand, w *World, hashes [3]string, names []string) *Proxy {
 	case x < 82:
 		p.Cfg = intp(1 + r.Intn(2))
 	}
-	p.PkpHash = hashOf(hashes, p.Cfg)
 	if r.Chance(60) {
 		refs := []string{}
 		for _, n := range names {
@@ -139,13 +138,6 @@ func genProxy(r *vlib.Rand, w *World, hashes [3]string, names []string) *Proxy {
 }
 
 func intp(k int) *int { return &k }
-
-func hashOf(hashes [3]string, cfg *int) string {
-	if cfg == nil {
-		return hashes[0]
-	}
-	return hashes[*cfg]
-}
 
 // effFmt is the provider toEnvoyTLSSecret will use for the proxy (own ProxyConfig, else the mesh default).
 func effFmt(w *World, p *Proxy) int {
@@ -348,9 +340,10 @@ func TestGen(t *testing.T) {
 
 	// private-key-provider hashes as the real code computes them
 	probeGen, _, _ := newSecretGen(&World{Clusters: []string{"c1"}, ConfigCluster: "c1"})
-	hashes := [3]string{pkpHash(probeGen, intp(0)), pkpHash(probeGen, intp(1)), pkpHash(probeGen, intp(2))}
-	if hashes[0] != "" || pkpHash(probeGen, nil) != "" || hashes[1] == "" || hashes[1] == hashes[2] || strings.Contains(hashes[1]+hashes[2], "/") {
-		t.Fatalf("unexpected private key provider hashes %q", hashes)
+	pkpHashes = [3]string{pkpHash(probeGen, intp(0)), pkpHash(probeGen, intp(1)), pkpHash(probeGen, intp(2))}
+	if pkpHashes[0] != "" || pkpHash(probeGen, nil) != "" || pkpHashes[1] == "" || pkpHashes[2] == "" || pkpHashes[1] == pkpHashes[2] ||
+		strings.Contains(pkpHashes[1]+pkpHashes[2], "/") {
+		t.Fatalf("unexpected private key provider hashes %q", pkpHashes)
 	}
 
 	// ---- filter
@@ -367,7 +360,7 @@ func TestGen(t *testing.T) {
 			names = append(names, genName(r))
 		}
 		names = dedupSorted(names)
-		p := genProxy(r, w, hashes, names)
+		p := genProxy(r, w, names)
 		if p.Verified == nil {
 			p.Verified = &Ident{"cluster.local", vlib.Pick(r, nsPool), vlib.Pick(r, saPool)}
 		}
@@ -390,9 +383,10 @@ func TestGen(t *testing.T) {
 		st := func(x xds.VerifC11Parsed) string {
 			return sresTerm(x.ResourceType, x.Name, x.Namespace, x.ResourceName, x.Cluster)
 		}
-		term := vlib.App("Filter", vlib.NI(id), w.term(), p.term(), strList(names),
+		beginCase()
+		term := endCase(vlib.App("Filter", vlib.NI(id), w.term(), p.term(), strList(names),
 			vlib.ListOf(parsed, func(x xds.VerifC11Parsed) string { return vlib.Pair(st(x), S(x.CacheKey)) }),
-			vlib.ListOf(passed, st))
+			vlib.ListOf(passed, st)))
 		tags := []string{"filter"}
 		for _, x := range passed {
 			tags = append(tags, "filter-allowed="+x.ResourceType)
@@ -453,26 +447,36 @@ func TestGen(t *testing.T) {
 			c.Violate(vlib.Violation{ID: id, Kind: "oracle", Detail: "Generate/decoding failed: " + failure, Case: map[string]any{"world": w, "ops": ops}})
 			return
 		}
+		opPlain := make([]string, len(ops)) // readable rendering for the evidence / replay
+		for j, o := range ops {
+			opPlain[j] = o.term()
+		}
+		beginCase()
 		opTerms := make([]string, len(ops))
 		for j, o := range ops {
 			opTerms[j] = o.term()
 		}
-		term := vlib.App("Scen", vlib.NI(id), w.term(), vlib.List(opTerms), vlib.ListOf(observed, entriesTerm), vlib.ListOf(fresh, entriesTerm), vlib.ListOf(keysets, strList))
+		lists := func(xs [][]Entry) string {
+			return vlib.ListOf(xs, func(es []Entry) string { return memo(entriesTerm(es)) })
+		}
+		term := endCase(vlib.App("Scen", vlib.NI(id), w.term(), vlib.List(opTerms), lists(observed), lists(fresh),
+			vlib.ListOf(keysets, func(ks []string) string { return memo(strList(ks)) })))
 		tags := append([]string{"scen", fmt.Sprintf("scen-ops=%d", len(ops))}, extraTags...)
-		// known finding C11-pkp-format-follows-first-requester: two requesters whose cache keys carry the same
-		// provider hash but who are served different key encodings (mesh-default provider; one sends no
-		// ProxyConfig, the other a ProxyConfig without provider)
-		fmtByHash := map[string]int{}
+		// the shape of the former finding (fixed by 31f7dc3): a mesh-default provider, one requester that
+		// sends no ProxyConfig and one that sends a ProxyConfig without provider
+		sawDefault, sawExplicitNone := false, false
 		for _, o := range ops {
 			if o.Kind != 0 || o.P.Verified == nil {
 				continue
 			}
-			f := effFmt(w, o.P)
-			if g, ok := fmtByHash[o.P.PkpHash]; ok && g != f {
-				c.FindingOf[id] = "C11-pkp-format-follows-first-requester"
-				tags = append(tags, "scen=same-hash-different-format")
+			if o.P.Cfg == nil {
+				sawDefault = true
+			} else if *o.P.Cfg == 0 {
+				sawExplicitNone = true
 			}
-			fmtByHash[o.P.PkpHash] = f
+		}
+		if w.MeshPkp != 0 && sawDefault && sawExplicitNone {
+			tags = append(tags, "scen=mesh-default-provider-vs-explicit-none")
 		}
 		anyKey, denied := false, false
 		got := map[string]bool{}
@@ -513,11 +517,12 @@ func TestGen(t *testing.T) {
 			tags = append(tags, "scen=denied-after-other-received")
 		}
 		c.Add(vlib.Case{ID: id, Term: term, Tags: tags,
-			Sample:  scenSample{World: w, Ops: opTerms, Observed: observed, Fresh: fresh, Keys: keysets},
+			Sample:  scenSample{World: w, Ops: opPlain, Observed: observed, Fresh: fresh, Keys: keysets},
 			Trivial: !(anyKey && denied)})
 	}
 
-	// witnesses of the known finding, both orders and both providers (minimal reproducer first)
+	// reproducers of the fixed finding C11-pkp-format-follows-first-requester, both orders and both providers:
+	// ordinary cases now, a recurrence is a VIOLATION
 	for i := 0; i < 4; i++ {
 		id++
 		if !c.Wanted(id) {
@@ -525,8 +530,8 @@ func TestGen(t *testing.T) {
 		}
 		w := &World{Clusters: []string{"c1"}, ConfigCluster: "c1", Secrets: []Secret{{"c1", "a", "tls", true, false}},
 			Authz: []Authz{{"c1", "a", "gw"}}, MeshPkp: 1 + i/2}
-		noCfg := &Proxy{Verified: &Ident{"cluster.local", "a", "gw"}, Cluster: "c1", PkpHash: hashes[0]}
-		plain := &Proxy{Verified: &Ident{"cluster.local", "a", "gw"}, Cluster: "c1", PkpHash: hashes[0], Cfg: intp(0)}
+		noCfg := &Proxy{Verified: &Ident{"cluster.local", "a", "gw"}, Cluster: "c1"}
+		plain := &Proxy{Verified: &Ident{"cluster.local", "a", "gw"}, Cluster: "c1", Cfg: intp(0)}
 		order := []*Proxy{noCfg, plain}
 		if i%2 == 1 {
 			order = []*Proxy{plain, noCfg}
@@ -535,7 +540,7 @@ func TestGen(t *testing.T) {
 		for _, p := range order {
 			ops = append(ops, Op{Kind: 0, P: p, Names: []string{"kubernetes://tls"}, R: Req{Kind: 1, Stores: true}})
 		}
-		execScen(id, w, ops, "scen=finding-witness")
+		execScen(id, w, ops, "scen=fixed-finding-witness")
 	}
 
 	rS := root.Sub()
@@ -569,7 +574,7 @@ func TestGen(t *testing.T) {
 		// authentication, cluster), then random ones
 		if len(w.Secrets) > 0 {
 			s := vlib.Pick(r, w.Secrets)
-			a := &Proxy{Verified: &Ident{"cluster.local", s.Ns, vlib.Pick(r, saPool)}, Cluster: s.Cluster, PkpHash: hashes[0], Cfg: intp(0)}
+			a := &Proxy{Verified: &Ident{"cluster.local", s.Ns, vlib.Pick(r, saPool)}, Cluster: s.Cluster, Cfg: intp(0)}
 			if r.Chance(15) {
 				a.Cfg = nil
 			}
@@ -609,7 +614,7 @@ func TestGen(t *testing.T) {
 			proxies = append(proxies, &tw)
 		}
 		for k := 1 + r.Intn(2); k > 0; k-- {
-			proxies = append(proxies, genProxy(r, w, hashes, pool))
+			proxies = append(proxies, genProxy(r, w, pool))
 		}
 		ops := []Op{}
 		for k := 2 + r.Intn(6); k > 0; k-- {
